@@ -53,7 +53,7 @@ impl Property for C07 {
         "C07"
     }
     fn rule(&self) -> String {
-        format!("histories of 1..12 operations over a 4-file workspace: edit(file, one of {NVARIANTS} text variants: every include subset x {{clean, declaration renamed, includes moved below the class}} x {{syntax error, type error, include of a missing file}}) applied server-style (edited file becomes root) or API-style (root unchanged), and root switches; after EVERY step the long-lived AnalysisHost's full dump (diagnostics, per workspace file: symbols, folding, links, full-range hints, definition/references/hover at every identifier, completion at 9 offsets x 2 triggers; FileId -> path; hash-ordered lists sorted) must equal the dump of a fresh host given only the current texts. distinct = digest of history; non-trivial = >=2 edits, one changing an include set or the root, and the dump changed between two consecutive steps")
+        format!("histories of 1..12 operations over a 4-file workspace: edit(file, one of {NVARIANTS} text variants: every include subset x {{clean, declaration renamed, includes moved below the class}} x {{syntax error, type error, include of a missing file}}) applied server-style (edited file becomes root) or API-style (root unchanged), root switches, and disk-only changes of a file (picked up when the sources are next collected); after EVERY step the long-lived AnalysisHost's full dump (diagnostics, per workspace file: symbols, folding, links, full-range hints, definition/references/hover at every identifier, completion at 9 offsets x 2 triggers; FileId -> path; hash-ordered lists sorted) must equal the dump of a fresh host given only the current texts. distinct = digest of history; non-trivial = >=2 edits, one changing an include set or the root, and the dump changed between two consecutive steps")
     }
     fn assumptions(&self) -> Vec<String> {
         vec!["every edit is followed by set_root_file (the only way the API (re)collects include maps); the in-memory FileSystem is updated together with set_file_content".into()]
@@ -65,7 +65,7 @@ impl Property for C07 {
                 for style in 0..2u64 {
                     for v in 0..NVARIANTS as u64 {
                         for f2 in 0..NFILES as u64 {
-                            for style2 in 0..3u64 {
+                            for style2 in 0..4u64 {
                                 let v2 = (v * 7 + f2 * 3 + style2) % NVARIANTS as u64;
                                 let h = json!([[style, file, v], [style2, f2, v2]]);
                                 if !emit(json!({"kind": "hist", "ops": h})) {
@@ -79,7 +79,7 @@ impl Property for C07 {
             Family::new("random-histories", ctx.tier.pick(48, 1500), |_c, rng, emit| {
                 for _ in 0..40 {
                     let n = 1 + rng.below(12);
-                    let ops: Vec<_> = (0..n).map(|_| json!([rng.weighted(&[5, 3, 2]), rng.below(NFILES), rng.below(NVARIANTS)])).collect();
+                    let ops: Vec<_> = (0..n).map(|_| json!([rng.weighted(&[5, 3, 2, 2]), rng.below(NFILES), rng.below(NVARIANTS)])).collect();
                     if !emit(json!({"kind": "hist", "ops": ops})) {
                         return;
                     }
@@ -92,6 +92,7 @@ impl Property for C07 {
         let mut files = initial_files();
         let mut live = Workspace::new(&files, "f0.td");
         let mut root = "f0.td".to_string();
+        let mut root_text = files[0].1.clone();
         let mut prev_dump: Option<serde_json::Value> = None;
         let mut changed = false;
         let mut structural = false;
@@ -101,7 +102,7 @@ impl Property for C07 {
             let f = f as usize % NFILES;
             let v = v as usize % NVARIANTS;
             let name = format!("f{f}.td");
-            match kind % 3 {
+            match kind % 4 {
                 0 => {
                     let t = variant_text(f, v);
                     if files[f].1 != t {
@@ -112,6 +113,7 @@ impl Property for C07 {
                     }
                     files[f].1 = t.clone();
                     live.edit_as_root(&name, &t);
+                    root_text = t.clone();
                     root = name.clone();
                 }
                 1 => {
@@ -122,16 +124,37 @@ impl Property for C07 {
                     }
                     files[f].1 = t.clone();
                     live.edit_keep_root(&name, &t);
+                    if root == name {
+                        root_text = t.clone();
+                    }
                 }
-                _ => {
+                2 => {
                     if root != name {
                         structural = true;
                     }
                     live.switch_root(&name);
+                    root_text = files[f].1.clone();
                     root = name.clone();
                 }
+                _ => {
+                    // the file changes on disk only; nothing to compare until the analysis is told to
+                    // look again (a fresh analysis would read the new text, the long-lived one has
+                    // not been asked to)
+                    // (not for the current root: its text is held by the analysis, and an include cycle
+                    // leading back to it would make "the final contents" ambiguous)
+                    if name == root {
+                        continue;
+                    }
+                    let t = variant_text(f, v);
+                    if files[f].1 != t {
+                        structural = true;
+                    }
+                    files[f].1 = t.clone();
+                    live.fs_only_edit(&name, &t);
+                    continue;
+                }
             }
-            let fresh = Workspace::new(&files, &root);
+            let fresh = Workspace::new_with_root_text(&files, &root, &root_text);
             let d_live = wsq::dump(&live, &live.analysis());
             let d_fresh = wsq::dump(&fresh, &fresh.analysis());
             if d_live != d_fresh {
